@@ -81,9 +81,9 @@ func shockPhase1(mod *modifier.Instance) {
 }
 
 func breakShockPhase1(mod *modifier.Instance) {
-	state, ok := mod.State().(*ShockState)
+	state, ok := mod.State().(*BreakShockState)
 	if !ok {
-		panic("incorrect state used for shock modifier")
+		panic("incorrect state used for break shock modifier")
 	}
 
 	// perform break shock damage
@@ -94,7 +94,7 @@ func breakShockPhase1(mod *modifier.Instance) {
 		AttackType: model.AttackType_DOT,
 		DamageType: model.DamageType_THUNDER,
 		BaseDamage: info.DamageMap{
-			model.DamageFormula_BY_BREAK_DAMAGE: state.DamagePercentage,
+			model.DamageFormula_BY_BREAK_DAMAGE: state.BreakBaseMulti,
 		},
 		AsPureDamage: true,
 		UseSnapshot:  true,
